@@ -29,6 +29,8 @@ type tokenizeOut struct {
 	err      error
 	toks     []Tok
 	ent      float32
+	str      string
+	hasStr   bool
 }
 
 func callTokenize(pw string, ix []byte, ent float32) (o tokenizeOut) {
@@ -44,6 +46,7 @@ func callTokenize(pw string, ix []byte, ent float32) (o tokenizeOut) {
 			o.toks = append(o.toks, Tok{t.Value(), int(t.Type())})
 		}
 		o.ent = p.Entropy
+		o.str, o.hasStr = p.String(), true
 	}
 	return
 }
@@ -144,6 +147,12 @@ func checkTokenizeCase(c *Ctx, cs TokCase, ent float32) bool {
 	}
 	if o.ent != ent {
 		c.Violate("entropy-changed", "", "Tokenize kept entropy %v, passed %v", o.ent, ent)
+		return false
+	}
+	// the Password that carries the tokens has no text of its own: what it prints is what its tokens
+	// spell (for an index that covers only a prefix of the string, only that prefix)
+	if o.hasStr && o.str != joinToks(o.toks) {
+		c.Violate("fake-text", "string-not-tokens", "Tokenize(%q, %v): the returned Password prints %q but its tokens spell %q [%s]", pw, cs.Index, o.str, joinToks(o.toks), cs.Note)
 		return false
 	}
 	if status == "ok" && !toksEqual(o.toks, want) {
